@@ -57,6 +57,25 @@ func genVal(r *Rng) []byte {
 	}
 }
 
+// hexPrefix returns a random nibble prefix (possibly the whole key) of a key's hex path
+func hexPrefix(r *Rng, k []byte) []byte {
+	nib := make([]byte, 0, 2*len(k))
+	for _, b := range k {
+		nib = append(nib, b>>4, b&15)
+	}
+	n := r.Intn(len(nib) + 1)
+	if len(nib) > 8 && r.Chance(1, 2) {
+		// deep paths for long keys: near the point where they diverge
+		n = len(nib) - r.Intn(10)
+	}
+	if r.Chance(1, 8) && n < len(nib) {
+		// a path that leaves the trie
+		p := append([]byte{}, nib[:n]...)
+		return append(p, byte(r.Intn(16)))
+	}
+	return nib[:n]
+}
+
 func keysOf(m map[string][]byte) []string {
 	ks := make([]string, 0, len(m))
 	for k := range m {
@@ -70,7 +89,9 @@ func genCase(r *Rng, scheme int, style int, big bool) Sx {
 	ref := map[string][]byte{}
 	ngen := 1 + r.Intn(4)
 	var gens SL
+	wrote := false
 	upd := func(ops *SL, k, v []byte) {
+		wrote = true
 		*ops = append(*ops, L(I(0), B(k), B(v)))
 		if len(v) == 0 {
 			delete(ref, string(k))
@@ -94,6 +115,7 @@ func genCase(r *Rng, scheme int, style int, big bool) Sx {
 	}
 	for g := 0; g < ngen; g++ {
 		var ops SL
+		wrote = false
 		kind := r.Intn(10)
 		if g == 0 {
 			kind = 0
@@ -155,6 +177,24 @@ func genCase(r *Rng, scheme int, style int, big bool) Sx {
 					}
 				}
 			}
+		case kind == 6: // read nodes by path (some below unresolved nodes), then delete / update below them
+			ks := keysOf(ref)
+			n := 1 + r.Intn(5)
+			for i := 0; i < n && len(ks) > 0; i++ {
+				ops = append(ops, L(I(3), B(hexPrefix(r, []byte(ks[r.Intn(len(ks))])))))
+			}
+			if r.Chance(1, 3) {
+				ops = append(ops, L(I(5)))
+			}
+			m := 1 + r.Intn(4)
+			for i := 0; i < m && len(ks) > 0; i++ {
+				k := []byte(ks[r.Intn(len(ks))])
+				if r.Chance(2, 3) {
+					upd(&ops, k, nil)
+				} else {
+					upd(&ops, k, val())
+				}
+			}
 		default: // random mix
 			n := 1 + r.Intn(20)
 			for i := 0; i < n; i++ {
@@ -162,7 +202,23 @@ func genCase(r *Rng, scheme int, style int, big bool) Sx {
 				case 0, 1: // delete an existing (mostly) key
 					upd(&ops, pick(), nil)
 				case 2: // read
-					ops = append(ops, L(I(2), B(pick())))
+					sel := r.Intn(6)
+					if wrote && (sel == 3 || sel == 4) {
+						// Prove / NodeIterator call the hasher, which caches hashes in DIRTY nodes;
+						// only a later GetNode on such a node could tell (not modelled): these two
+						// reads are generated before the first write of a session only
+						sel = 0
+					}
+					switch sel {
+					case 0, 1, 2:
+						ops = append(ops, L(I(3), B(hexPrefix(r, pick()))))
+					case 3:
+						ops = append(ops, L(I(4), B(pick())))
+					case 4:
+						ops = append(ops, L(I(5)))
+					default:
+						ops = append(ops, L(I(2), B(pick())))
+					}
 				case 3: // delete a key that is probably absent
 					upd(&ops, genKey(r, style), nil)
 				case 4: // delete then re-insert the same key
